@@ -44,10 +44,19 @@ func DrawFunctional(rt *rapid.T, o FuncOpt) *Subject {
 		switch o.Kind {
 		case "plumb":
 			sig := env.DrawSig(rt, 2, 5, 3, modes)
+			if rapid.IntRange(0, 3).Draw(rt, "repeat-type") == 0 {
+				// repeated parameter types make transpositions type-correct (and so silent)
+				j := rapid.IntRange(1, len(sig.Params)-1).Draw(rt, "repeat-at")
+				sig.Params[j].Type = sig.Params[0].Type
+			}
 			if !used.Claim("sig|" + sig.TypeKey()) {
 				continue
 			}
-			addPlumb(p, used, s, sig, id)
+			share := -1
+			if rapid.IntRange(0, 2).Draw(rt, "share-name") == 0 {
+				share = rapid.IntRange(0, 3).Draw(rt, "share-pos")
+			}
+			addPlumb(p, used, s, sig, id, share)
 		case "mem":
 			sig := env.DrawSig(rt, 0, 3, 3, []string{"named", "unnamed"})
 			for i := range sig.Params {
@@ -98,7 +107,7 @@ func (s *Subject) newFuncEntry(id string, sig *progen.Sig) *Entry {
 	return e
 }
 
-func addPlumb(p *progen.Prog, used progen.Used, s *Subject, sig *progen.Sig, id string) {
+func addPlumb(p *progen.Prog, used progen.Used, s *Subject, sig *progen.Sig, id string, share int) {
 	e := s.newFuncEntry(id, sig)
 	ft := sig.FuncType(p.T)
 	n := len(sig.Params)
@@ -121,7 +130,26 @@ func addPlumb(p *progen.Prog, used progen.Used, s *Subject, sig *progen.Sig, id 
 	e.Funcs["apply"] = "Apply" + id
 	// uncurry: func(P0) func(P1..) R
 	first := &progen.Sig{Params: sig.Params[:1]}
-	rest := &progen.Sig{Params: sig.Params[1:], Results: sig.Results}
+	rest := &progen.Sig{Params: append([]progen.Param{}, sig.Params[1:]...), Results: sig.Results}
+	// the two parameter lists of a curried function are separate scopes: they may share a name
+	// (also one that only arises when the outer blank/unnamed parameter is renamed)
+	if share >= 0 && sig.Mode != "unnamed" {
+		j := share % len(rest.Params)
+		nm := first.Params[0].Name
+		if nm == "_" || nm == "" {
+			nm = "param_0"
+		}
+		dup := false
+		for k, rp := range rest.Params {
+			if k != j && rp.Name == nm {
+				dup = true
+			}
+		}
+		if !dup {
+			rest.Params[j].Name = nm
+			e.Tags["shared-name"] = "1"
+		}
+	}
 	uft := "func(" + first.ParamList(p.T) + ") " + rest.FuncType(p.T)
 	p.Add("func Uncurry%s(f %s) any {\n\treturn deriveUncurry%s(f)\n}\n", id, uft, id)
 	e.Funcs["uncurry"] = "Uncurry" + id
